@@ -317,6 +317,7 @@ public:
 			memcpy(new_arr + wptr + 1, where, (end() - where) * sizeof(T));
 			delete[] _arr;
 			_arr = new_arr;
+			where = _arr + wptr;	// the old array is gone
 		}
 		++_sz;
 		return result(where, true);
